@@ -251,7 +251,7 @@ var wsRunRe = regexp.MustCompile(`[ \t]*[\r\n]+[ \t]*`)
 func normStrings(n *vlib.ON, collapseNotes bool) *vlib.ON {
 	return n.MapStrings(func(path []string, s string) string {
 		s = strings.ReplaceAll(strings.ReplaceAll(s, "\r\n", "\n"), "\r", "\n")
-		if collapseNotes && len(path) > 0 && path[len(path)-1] == "note" {
+		if collapseNotes && len(path) > 1 && path[len(path)-1] == "note" && path[0] == "userEnums" {
 			s = wsRunRe.ReplaceAllString(s, "\n")
 		}
 		return s
@@ -290,11 +290,15 @@ func c08CorpusOracle(c *vlib.Case) *vlib.Violation {
 		}
 		a, _ := vlib.ParseOrdered(j1)
 		b, _ := vlib.ParseOrdered(j2)
-		a, b = normStrings(a, kind == "indent"), normStrings(b, kind == "indent")
+		a, b = normStrings(a, false), normStrings(b, false)
 		if hasRegexType(c.Project) {
 			a, b = a.StripExamples(), b.StripExamples()
 		}
 		if d := vlib.FirstDiff(a, b, ""); d != "" {
+			if strings.Contains(kind, "indent") && vlib.FirstDiff(normStrings(a, true), normStrings(b, true), "") == "" {
+				// the only differences are multi-line notes of ENUM values, which keep the indentation of the source (S3)
+				return vlib.V("c08:enum-note-keeps-source-indentation", "rewrite %s changes the catalog: %s", kind, d)
+			}
 			return vlib.V("c08:catalog-differs:"+kind, "rewrite %s changes the catalog: %s", kind, d)
 		}
 		return nil
@@ -349,14 +353,6 @@ var c08Corpus = &vlib.Check{
 			return nil
 		}
 		kind := strings.Join(names, "+")
-		if len(names) > 1 {
-			// for compositions the enum-note normalisation applies as soon as indentation is involved
-			for _, n := range names {
-				if n == "indent" {
-					kind = "indent"
-				}
-			}
-		}
 		return &vlib.Case{Project: p0, Project2: vlib.SingleFile(cur), Params: map[string]any{"rewrite": kind, "rewrites": strings.Join(names, "+"), "expect_line": line}}
 	},
 	Classify: func(c *vlib.Case) (bool, []string) {
